@@ -97,11 +97,13 @@ class Path:
         elif not c:
             raise Infeasible()
 
-    def oblige(self, name, goal, meta=None):
+    def oblige(self, name, goal, meta=None, extra_hyps=()):
         if isinstance(goal, Sym):
             g = V._bool_term(goal)
         else:
             g = z3.BoolVal(bool(goal))
+        if extra_hyps:
+            g = z3.Implies(z3.And(*extra_hyps), g)
         used = {o.name for o in self.obligations}
         if name in used:
             k = 2
